@@ -128,7 +128,10 @@ let c04 s b =
   (* which trace drives the simplification, and what is printed as tr *)
   let pick level (mine : tchoice list) : tchoice list =
     if jit then begin
-      if not (jit_trace_ok mode mine given.(level)) then jt_ok := false;
+      if not (jit_trace_ok mode mine given.(level)) then begin jt_ok := false;
+        if Sys.getenv_opt "FV_DEBUG" <> None then begin
+          prerr_string (Printf.sprintf "level %d mode %d mine:" level mode); List.iter (fun c -> prerr_string (Printf.sprintf " %d" (choice_code c))) mine;
+          prerr_string " given:"; (match given.(level) with Some g -> List.iter (fun c -> prerr_string (Printf.sprintf " %d" (choice_code c))) g | None -> prerr_string " none"); prerr_newline () end end;
       match given.(level) with Some g -> g | None -> List.map (fun _ -> TBoth) mine
     end else mine in
   let c04_level = c04_level ~jit in
